@@ -28,6 +28,16 @@ G2 = ["cx", "cz", "cp", "rxx", "ryy", "rzz"]
 NPAR = {"rx": 1, "ry": 1, "rz": 1, "p": 1, "u": 3, "u2": 2, "cp": 1, "rxx": 1, "ryy": 1, "rzz": 1}
 
 
+def angles(rng, k):
+    """generic angles, and (one time in four) degenerate ones: exactly 0, multiples of pi/2, 2 pi — all legal"""
+    u = rng.random()
+    if k and u < 0.12:
+        return [0.0] * k
+    if k and u < 0.25:
+        return [float(rng.choice([0.0, 0.0, np.pi / 2, -np.pi / 2, np.pi, 2 * np.pi])) for _ in range(k)]
+    return [float(x) for x in rng.uniform(-3.1, 3.1, size=k)]
+
+
 def gen(rng, n=None, m=None):
     n = n or int(rng.integers(2, 6))
     m = m or int(rng.integers(1, 15))
@@ -35,20 +45,20 @@ def gen(rng, n=None, m=None):
     for _ in range(m):
         if rng.random() < 0.45:
             name = str(rng.choice(G1))
-            gates.append((name, [int(rng.integers(0, n))], [float(x) for x in rng.uniform(-3.1, 3.1, size=NPAR.get(name, 0))]))
+            gates.append((name, [int(rng.integers(0, n))], angles(rng, NPAR.get(name, 0))))
         else:
             prev = [g for g in gates if len(g[1]) == 2]
             if prev and rng.random() < 0.35:
                 # repetition family: the same gate type on the same pair again, orientation and/or angles possibly changed
                 pn, pq, pp = prev[int(rng.integers(0, len(prev)))]
                 qs = list(pq) if rng.random() < 0.4 else [pq[1], pq[0]]
-                par = list(pp) if rng.random() < 0.5 else [float(x) for x in rng.uniform(-3.1, 3.1, size=NPAR.get(pn, 0))]
+                par = list(pp) if rng.random() < 0.5 else angles(rng, NPAR.get(pn, 0))
                 gates.append((pn, qs, par))
                 continue
             name = str(rng.choice(G2))
             q = int(rng.integers(0, n - 1))
             qs = [q, q + 1] if rng.random() < 0.5 else [q + 1, q]
-            gates.append((name, qs, [float(x) for x in rng.uniform(-3.1, 3.1, size=NPAR.get(name, 0))]))
+            gates.append((name, qs, angles(rng, NPAR.get(name, 0))))
     return n, gates
 
 
@@ -290,6 +300,14 @@ def search(ctx):
         dict(n=4, gates=[("h", [1], []), ("ry", [2], [1.1]), ("cx", [2, 1], []), ("cx", [1, 2], []), ("rzz", [1, 2], [0.4]), ("rzz", [2, 1], [0.9])], state="x+"),
     ]
     plan = list(fixed)
+    # every parametrised gate of the library at angle(s) exactly zero (u2(0,0) is NOT the identity: its rotation angle is an implicit pi/2),
+    # between entanglers, from two initial states; and at pi/2
+    for ang in (0.0, float(np.pi / 2)):
+        zero = [(nm, [k % 3], [ang] * NPAR[nm]) for k, nm in enumerate(g for g in G1 if g in NPAR)]
+        zero2 = [(nm, [k % 2, k % 2 + 1] if k % 2 else [k % 2 + 1, k % 2], [ang] * NPAR[nm]) for k, nm in enumerate(g for g in G2 if g in NPAR)]
+        circ = zero[:3] + [("cx", [0, 1], [])] + zero[3:] + zero2 + [("h", [2], []), ("cx", [2, 1], [])] + zero[:2]
+        for st in ("zeros", "x+"):
+            plan.append(dict(n=3, gates=circ, state=st))
     # start from the circuits on which model and implementation diverged
     for mm in ctx.mismatches[:12]:
         c = mm.get("case")
